@@ -285,3 +285,26 @@ def run(ctx):
               "in a finally section a statement is kept only when a ';' follows it: the optional trailing ';' "
               "changes which statements run", expr="finally section: ';' optional",
               site="parse_block: finally statements are kept with or without a trailing ';'")
+
+    # catch section: the optional ';' after a handler is looked for whatever form the handler took
+    cl = [n for n in ast.walk(pb.node) if isinstance(n, ast.While) and "matchIf('catch'" in norm(n.test)]
+    if len(cl) != 1:
+        ctx.broken("parse_block", "catch-clause loop not found")
+    g3 = CFG(_as_func(cl[0].body), implicit_exc=False)
+
+    def tag3(node, label):
+        a = node.ast
+        if a is None or node.kind == "for":
+            return None
+        for x in ast.walk(a):
+            if isinstance(x, ast.Call) and norm(x.func) in ("lexer.peekn", "lexer.matchIf", "lexer.match") \
+                    and any(isinstance(y, ast.Constant) and y.value == ";" for y in ast.walk(x)):
+                return "semi"
+        return None
+
+    ok = "semi" in must_pass(g3, tag3).get(g3.exit.id, frozenset())
+    ctx.check("C14.sep", pb, cl[0], ok,
+              "after a catch handler the optional ';' is looked for on some paths only (e.g. only after a statement "
+              "handler, not after a `do .. end` handler): the same program with and without that ';' parses "
+              "differently", expr="catch section: ';' optional after every handler",
+              site="parse_block: optional ';' after every catch handler, block or statement")
